@@ -78,9 +78,11 @@ pub const FOREIGN_H3: usize = 2_000_000;
 macro_rules! foreign_handlers {
     ($($k:expr => $n1:ident, $n3:ident);*) => {
         $(
-            pub extern "C" fn $n1(_sig: libc::c_int) { log(FOREIGN_H1 + $k); }
-            pub extern "C" fn $n3(_sig: libc::c_int, _i: *mut libc::siginfo_t, _c: *mut libc::c_void) {
-                log(FOREIGN_H3 + $k);
+            pub extern "C" fn $n1(sig: libc::c_int) {
+                if !crate::regconc::foreign_called("h1", $k, sig, 0, 0) { log(FOREIGN_H1 + $k); }
+            }
+            pub extern "C" fn $n3(sig: libc::c_int, i: *mut libc::siginfo_t, c: *mut libc::c_void) {
+                if !crate::regconc::foreign_called("h3", $k, sig, i as usize, c as usize) { log(FOREIGN_H3 + $k); }
             }
         )*
         pub fn foreign_h1(k: usize) -> Option<usize> {
